@@ -11,7 +11,7 @@ from lib.core import czl
 from harness import common, sess, smppref, vsess
 from harness import C02
 
-THEOREMS = ['C01_segmented_outcome', 'C01_event_by_event', 'C01_plain_outcome', 'C01_failure_wins', 'C01_nonvacuous']
+THEOREMS = ['C01_segmented_outcome', 'C01_event_by_event', 'C01_plain_outcome', 'C01_in_call_sweep', 'C01_failure_wins', 'C01_nonvacuous']
 IMPORTS = C02.IMPORTS
 
 
@@ -69,6 +69,12 @@ def gen_history(rng):
             break
         m, c = rng.choice(cands)
         ev = c.pop(0)
+        if ev[0] == 'resp' and m['k'] > 1 and rng.random() < 0.3:
+            # sibling segments that are stored and due to time out: they do so inside correlator.get() of this response
+            sib = [c2 for c2 in m['chains'] if c2 and c2[0][0] == 'expire' and c2 is not c]
+            if sib:
+                picked = [c2.pop(0) for c2 in sib[:rng.randint(1, len(sib))]]
+                ev = ev + (tuple(x[2] for x in picked),)
         if ev[0] == 'put':
             if m['k'] > 1 and not m['started']:
                 m['ref'] = rng.choice([r for r in free_refs if r not in active_refs])
@@ -116,7 +122,12 @@ async def run_real(history):
                 await esme.correlator.put(m)
                 res = ('none',)
             elif ev[0] == 'resp':
-                _k, uid, cmd, sq, status, mid = ev
+                _k, uid, cmd, sq, status, mid = ev[:6]
+                for sq2 in (ev[6] if len(ev) > 6 else ()):
+                    key2 = str(sq2)
+                    if key2 in esme.correlator._store._data:
+                        item = esme.correlator._store._data[key2]
+                        esme.correlator._store._data[key2] = (item[0] - 1000.0, item[1])
                 body = (str(mid).encode() + b'\x00') if cmd == 0x80000004 else b''
                 pdu = smppref.header(cmd, status, sq, body)
                 res = ('resp', await esme._handle_response(pdu, SmppMessage.parse_header(pdu)))
@@ -180,6 +191,8 @@ def oracle_history(history, obs):
         if sq in m['state']:
             continue
         m['state'][sq] = 'ok' if (ev[0] == 'resp' and ev[2] == 0x80000004 and ev[4] == 0) else ('fail' if ev[0] == 'resp' else 'expired')
+        for sq2 in (ev[6] if ev[0] == 'resp' and len(ev) > 6 else ()):
+            m['state'].setdefault(sq2, 'expired')
         complete = len(m['state']) == m['k'] and len(m['seqs']) == m['k']
         for kind, olog, detail in outcomes:
             if olog != log:
@@ -203,6 +216,9 @@ def coq_events(history):
     for ev in history:
         if ev[0] == 'expire':
             out.append(f'HExpire {ev[2]}')
+        elif ev[0] == 'resp' and len(ev) > 6:
+            _k, uid, cmd, sq, status, mid, exps = ev
+            out.append(f'HResponseX {{| rs_uid := {uid}; rs_cmd := {cmd}; rs_seq := {sq}; rs_status := {status} |}} {mid} {czl(list(exps))}')
         else:
             out.append(C02.coq_events([ev])[1:-1])
     return '[' + '; '.join(out) + ']'
@@ -374,12 +390,25 @@ def run(ctx):
         nontriv = any(ev[0] == 'expire' or (ev[0] == 'resp' and (ev[4] != 0 or ev[2] == 0x80000000)) for ev in hist)
         ctx.case(('hist', repr(hist)), nontrivial=nontriv)
         for ev in hist:
-            ctx.count('event_' + ev[0] + ('_fail' if ev[0] == 'resp' and (ev[4] != 0 or ev[2] == 0x80000000) else ''))
+            ctx.count('event_' + ev[0] + ('_fail' if ev[0] == 'resp' and (ev[4] != 0 or ev[2] == 0x80000000) else '') + ('_with_sibling_timeout_in_call' if ev[0] == 'resp' and len(ev) > 6 else ''))
         msg = oracle_history(hist, obs)
         if msg:
             ctx.violation(msg, {'function': 'history', 'history': [list(e) for e in hist]})
         if i < 1:
             ctx.sample({'history': [list(e) for e in hist[:10]], 'hook': obs[:10]})
+    # concurrent correlator calls with a send_error hook that suspends (scripts and real-code runner of C14): no message may be reported
+    # as timed out twice, or as timed out and answered
+    from fractions import Fraction
+    from harness import C14
+    for j in range(120 if ctx.thorough else 40):
+        ttl = Fraction(rng.choice([1, 2, 15]))
+        script = C14.gen_script(rng, rng.randint(6, 14), ttl)
+        _obs, hooklog, executed, info = asyncio.run(C14.run_real(script, ttl))
+        ctx.case(('concurrent', repr(script)), nontrivial=bool(hooklog))
+        ctx.count('concurrent_script_with_suspending_send_error_hook')
+        msg = C14.oracle(ttl, hooklog, executed, info)
+        if msg and ('answered' in msg or 'twice' in msg):
+            ctx.violation(f'two outcomes for one message: {msg}', {'function': 'concurrent', 'script': repr(script)[:1500], 'ttl': str(ttl)})
     ns = 400 if ctx.thorough else 70
     for i in range(ns):
         seed = rng.randrange(1 << 30)
